@@ -5,6 +5,7 @@ import (
 	"os"
 	"path/filepath"
 	"sort"
+	"strconv"
 	"strings"
 	"sync"
 	"testing"
@@ -42,13 +43,19 @@ func c02Tearable(rel string) bool {
 	return strings.HasSuffix(rel, ".wal") || filepath.Base(rel) == "fields.idxl"
 }
 
-// order in which a WritePoints / delete appends to files in place: field changes before WAL.
-func c02TearOrder(rel string) int {
-	if filepath.Base(rel) == "fields.idxl" {
+func c02IsIdxl(rel string) bool { return filepath.Base(rel) == "fields.idxl" }
+
+// order in which an operation appends to files in place. WritePoints: field changes, (index,)
+// WAL. Delete: (tombstones,) WAL, (index and series file,) field changes of dropped measurements.
+func c02TearOrder(kind, rel string) int {
+	if c02IsIdxl(rel) == (kind != "delete") {
 		return 0
 	}
 	return 1
 }
+
+// c02IndexDirs are the parts of a shard image a delete changes only after its WAL entry.
+var c02IndexDirs = []string{filepath.Join("data", "db0", "rp0", "1", "index"), filepath.Join("data", "db0", "_series")}
 
 type c02Ctx struct {
 	r       *vkit.Run
@@ -58,6 +65,10 @@ type c02Ctx struct {
 	workDir string
 	probeN  int64
 	all     bool
+	// snapRetained: a snapshot write failed and the cache still holds that snapshot for a retry;
+	// delRetained: a delete ran in that state (known finding C03-delete-with-retained-failed-snapshot:
+	// it does not see the snapshotted points, so no WAL entry or tombstone covers them)
+	snapRetained, delRetained bool
 }
 
 func listFiles(dir string) []string {
@@ -92,10 +103,15 @@ func readState(s *sk.Shard, series []seriesDef, extra []seriesDef) (map[string]m
 	return out, nil
 }
 
+// c02Kind is the classification (sk.Model.Classify) of the mismatch modelEquals reported last.
+var c02Kind string
+
 func modelEquals(m *sk.Model, st map[string]map[string][]sk.Pt) string {
 	for key, fs := range st {
 		for f, got := range fs {
-			if d := sk.Diff(m.Read(key, f, sk.MinT, sk.MaxT, true), got); d != "" {
+			want := m.Read(key, f, sk.MinT, sk.MaxT, true)
+			if d := sk.Diff(want, got); d != "" {
+				c02Kind = m.Classify(key, f, want, got)
 				return fmt.Sprintf("series=%q field=%s: %s", key, f, d)
 			}
 		}
@@ -210,6 +226,7 @@ func (c *c02Ctx) verifyImage(imgDir string, acked *sk.Model, inflight *opSpec, o
 	if diff != "" {
 		s.Close()
 		feats["phase"] = "after_reopen"
+		feats["kind"], feats["delete_with_retained_snapshot"] = c02Kind, fmt.Sprint(c.delRetained)
 		r.Violation("crash_recovery_mismatch", feats, wit("after_reopen", diff))
 		return false
 	}
@@ -254,6 +271,7 @@ func (c *c02Ctx) verifyImage(imgDir string, acked *sk.Model, inflight *opSpec, o
 	if err != nil {
 		s.Close()
 		feats["phase"] = "after_recovery_write"
+		feats["kind"], feats["delete_with_retained_snapshot"] = c02Kind, fmt.Sprint(c.delRetained)
 		r.Violation("post_recovery_write_mismatch", feats, wit("after_recovery_write", err.Error()))
 		return false
 	}
@@ -278,6 +296,7 @@ func (c *c02Ctx) verifyImage(imgDir string, acked *sk.Model, inflight *opSpec, o
 	}
 	if err != nil {
 		feats["phase"] = "after_second_restart"
+		feats["kind"], feats["delete_with_retained_snapshot"] = c02Kind, fmt.Sprint(c.delRetained)
 		r.Violation("double_restart_mismatch", feats, wit("after_second_restart", err.Error()))
 		return false
 	}
@@ -340,12 +359,20 @@ func c02History(r *vkit.Run, caseNo int, rg *vkit.Rand, all bool) {
 				keys = append(keys, series[si].Key)
 			}
 			opErr = s.DeleteRange(keys, o.Min, o.Max)
+			if c.snapRetained {
+				c.delRetained = true
+				r.Event("deletes_with_retained_snapshot", 1)
+			}
 		case "snapfail":
 			if err := s.SnapshotFailing(); err != nil {
 				r.Event("failed_snapshots", 1)
+				c.snapRetained = true
 			}
 		case "snapshot":
 			opErr = s.Snapshot()
+			if opErr == nil {
+				c.snapRetained = false
+			}
 		case "level":
 			s.CompactLevel(o.Level, o.Fast, o.PPB)
 		case "full":
@@ -382,7 +409,7 @@ func c02History(r *vkit.Run, caseNo int, rg *vkit.Rand, all bool) {
 		// (iii) torn tails of files appended in place by a write / delete
 		if ok && (o.Kind == "write" || o.Kind == "delete") {
 			grown := crash.Grown(prev.Dir, bimg.Dir, c02Tearable)
-			sort.SliceStable(grown, func(i, j int) bool { return c02TearOrder(grown[i].Rel) < c02TearOrder(grown[j].Rel) })
+			sort.SliceStable(grown, func(i, j int) bool { return c02TearOrder(o.Kind, grown[i].Rel) < c02TearOrder(o.Kind, grown[j].Rel) })
 			for gi, gf := range grown {
 				// WAL tails are torn three ways; fields.idxl records carry no checksum, so only the
 				// prefix cut (what a process death mid-write leaves) is a promised-recoverable state
@@ -390,7 +417,7 @@ func c02History(r *vkit.Run, caseNo int, rg *vkit.Rand, all bool) {
 				if all && k == 0 {
 					fills = append(fills, "garbageA5")
 				}
-				if c02TearOrder(gf.Rel) == 0 {
+				if c02IsIdxl(gf.Rel) {
 					fills = []string{"cut"}
 				}
 				for _, j := range crash.Offsets(gf.New-gf.Old, all) {
@@ -409,11 +436,24 @@ func c02History(r *vkit.Run, caseNo int, rg *vkit.Rand, all bool) {
 						}
 						// files written later in the operation are still at their old length
 						for _, later := range grown[gi+1:] {
-							if later.Old == 0 && c02TearOrder(later.Rel) == 0 {
+							if later.Old == 0 && c02IsIdxl(later.Rel) {
 								os.Remove(filepath.Join(vdir, later.Rel))
 							} else {
 								os.Truncate(filepath.Join(vdir, later.Rel), later.Old)
 							}
+						}
+						// a delete drops series from the index and the series file only after its WAL
+						// entry is written: while that entry is torn they are as before the delete
+						if o.Kind == "delete" && !c02IsIdxl(gf.Rel) {
+							for _, d := range c02IndexDirs {
+								os.RemoveAll(filepath.Join(vdir, d))
+								if _, err := os.Stat(filepath.Join(prev.Dir, d)); err == nil {
+									if err := crash.CopyTree(filepath.Join(prev.Dir, d), filepath.Join(vdir, d)); err != nil {
+										r.T.Fatalf("variant index: %v", err)
+									}
+								}
+							}
+							r.Event("torn_delete_index_from_before", 1)
 						}
 						if err := crash.Tear(filepath.Join(vdir, gf.Rel), gf.Old+j, gf.New, fill); err != nil {
 							r.T.Fatalf("tear: %v", err)
@@ -421,7 +461,7 @@ func c02History(r *vkit.Run, caseNo int, rg *vkit.Rand, all bool) {
 						torn++
 						images++
 						kind := "wal"
-						if c02TearOrder(gf.Rel) == 0 {
+						if c02IsIdxl(gf.Rel) {
 							kind = "fields.idxl"
 						}
 						r.Event("torn_image:"+kind+":"+fill, 1)
@@ -467,8 +507,15 @@ func TestC02(t *testing.T) {
 	defer r.Finish()
 	r.Rule("case = generated history (6–14 ops: writes, range deletes, snapshots, level/full/optimize/run compactions) on a real shard; crash points enumerated per history: every op boundary, every verifhook point reached inside an op (snapshot/compaction/replace/delete/tombstone commit step boundaries), and torn tails (clean cut / zero fill / 0xA5 fill) of WAL segment and fields.idxl at byte offsets of the in-flight append (stride in quick, every byte in thorough); each image reopened by the real code, crash rule applied, then written to, closed without flush, reopened, re-checked; non-trivial = history has a write, ≥10 images and ≥1 torn variant; distinct = hash of op list")
 	r.Assume("crash model = process death (everything handed to the kernel survives) + torn last append; no block-layer reordering")
-	n := r.N(8, 300)
+	n := r.N(8, 48)
+	only := -1
+	if v := os.Getenv("VERIF_C02_ONLY"); v != "" { // replay aid: one history of the tier
+		only, _ = strconv.Atoi(v)
+	}
 	for i := 0; i < n; i++ {
+		if only >= 0 && i != only {
+			continue
+		}
 		c02History(r, i, r.Rand(i), !r.Quick())
 		if r.Violations() > 3 {
 			break
